@@ -25,6 +25,7 @@ LEAN = os.path.join(VERIF, 'lean')
 REPO = os.environ.get('SYNPHOT_REPO', '/repo')
 NCPU = int(os.environ.get('VERIF_JOBS', str(os.cpu_count() or 4)))
 F = fractions.Fraction
+sys.set_int_max_str_digits(0)
 
 
 def _use_repo():
@@ -40,6 +41,18 @@ def _use_repo():
 
 
 _use_repo()
+
+
+def quiet():
+    """warnings raised by the implementation are not observables of any property (recorded warnings are read
+    from the objects' metadata); keep them off the console"""
+    warnings.simplefilter('ignore')
+    try:
+        from astropy import log
+        log.setLevel('ERROR')
+        log.disable_warnings_logging()
+    except Exception:
+        pass
 
 
 # ---------------------------------------------------------------- rationals
